@@ -12,4 +12,5 @@ def build(u):
     u.raw("pub mod messages {\nuse super::*;\n")
     u.item(m, "TrampolineRoutingPolicy", "struct")
     u.impl(m, "TrampolineRoutingPolicy", ["fee_sufficient"], "messages")
+    u.auto_here(m, "messages")
     u.raw("}\n} // verus!\nfn main() {}\n")
